@@ -220,6 +220,14 @@ func init() {
 	reg("NoPanic", func(c *icall) ([]*State, bool) { c.s.NoPanic = true; return nil, false })
 	reg("Observe", func(c *icall) ([]*State, bool) {
 		iv := c.args[1].(IfaceV)
+		// a symbolic boolean that the path condition forces is observed as its value
+		if b, ok := iv.V.(BoolV); ok && !b.IsLit() {
+			if r, _ := c.w.S.CheckPreciseTO(c.s.Decls, c.s.PC, []string{tNot(b.T)}, nil, 20000); r == "unsat" {
+				iv.V = mkBool(true)
+			} else if r, _ := c.w.S.CheckPreciseTO(c.s.Decls, c.s.PC, []string{b.T}, nil, 20000); r == "unsat" {
+				iv.V = mkBool(false)
+			}
+		}
 		c.s.Trace = append(c.s.Trace, litArg(c.args[0], "label")+"="+observeStr(c.s, iv.V))
 		return nil, false
 	})
@@ -308,6 +316,10 @@ func observeStr(s *State, v Value) string {
 		}
 	case BoolV:
 		return x.T
+	case PtrV:
+		if x.Obj == 0 {
+			return "<nil>"
+		}
 	case SliceV:
 		if x.Obj == 0 {
 			return "[]"
